@@ -18,7 +18,7 @@ VARIABLES l, nrej,
 vars == <<l, nrej, reg, lay>>
 
 Init == l = 1 /\ nrej = 0 /\ reg = [i \in 1..4 |-> Z0] /\ lay = <<0, 8, 0>>
-IsW(e) == e.k \in {"wreset", "wload", "w"}
+IsW(e) == e.k \in {"wreset", "wload", "w", "wobs"}
 
 \* Verdict of one event: "ok" (a step of the specification under layer M), the name of the
 \* known deviation whose layer-A model reproduces it bit for bit, or "" (a violation).
